@@ -315,8 +315,8 @@ impl Property for C09 {
     }
     fn cases(&self, tier: Tier) -> u64 {
         match tier {
-            Tier::Quick => 600000,
-            Tier::Thorough => 8000000,
+            Tier::Quick => 6_000_000,
+            Tier::Thorough => 80_000_000,
         }
     }
     fn decode(&mut self, tape: &TapeVal) -> Case {
